@@ -81,6 +81,72 @@ func VH_slice_LIS() {
 	}
 }
 
+// vFloatOf maps a choice index to a float64 value; index 0 is NaN. Floats are
+// concrete in the engine: every value is a forked choice.
+func vFloatOf(i int) float64 {
+	var zero float64
+	switch i {
+	case 0:
+		return zero / zero // NaN
+	case 1:
+		return -1 / zero // -Inf
+	}
+	return float64(i - 2)
+}
+
+func vFloatIs(a, b float64) bool { return a == b || a != a && b != b }
+
+// VH_slice_LISFloat: LIS and LNDS on float64 values including NaN and an
+// infinity, in the natural order of the ordered types (cmp.Compare: NaN sorts
+// before everything and equals itself). Optimal length by an O(n^2) reference,
+// result is a subsequence in the required order, input unmodified.
+func VH_slice_LISFloat() {
+	n := vCase("n")
+	strict := vCase("strict") == 1
+	vs := make([]float64, n)
+	for i := range vs {
+		vs[i] = vFloatOf(vChoice("f", 5))
+	}
+	v0 := append([]float64{}, vs...)
+	var got []float64
+	if strict {
+		got = LIS(vs)
+	} else {
+		got = LNDS(vs)
+	}
+	vCover("lis-float")
+	// reference optimum
+	best := 0
+	dp := make([]int, n)
+	for i := range vs {
+		dp[i] = 1
+		for j := 0; j < i; j++ {
+			r := cmp.Compare(vs[i], vs[j])
+			if (strict && r > 0 || !strict && r >= 0) && dp[j]+1 > dp[i] {
+				dp[i] = dp[j] + 1
+			}
+		}
+		if dp[i] > best {
+			best = dp[i]
+		}
+	}
+	vAssert(len(got) == best, "LIS/LNDS on floats: optimal length in the natural order")
+	j := 0
+	for i := 0; i < n && j < len(got); i++ {
+		if vFloatIs(vs[i], got[j]) {
+			j++
+		}
+	}
+	vAssert(j == len(got), "LIS/LNDS on floats: result is a subsequence of the input")
+	for i := 1; i < len(got); i++ {
+		r := cmp.Compare(got[i-1], got[i])
+		vAssert(r < 0 || !strict && r == 0, "LIS/LNDS on floats: result is in the required order")
+	}
+	for i := range vs {
+		vAssert(vFloatIs(vs[i], v0[i]), "LIS/LNDS on floats: input not modified")
+	}
+}
+
 // VH_slice_LISLong: a long strictly increasing run followed by a few arbitrary
 // elements: the answer is long enough to leave any small-size fast path of the search.
 func VH_slice_LISLong() {
